@@ -473,7 +473,12 @@ namespace {
         os.precision(17);
         os << "adaptive integral, estimate reliable on all " << rg.leaves.size() << " leaves (worst true error/estimate "
            << static_cast<double>(worst) << "), requested tolerance " << atol;
-        c.close(*o, exact, atol + rounding, "C12.gk.analytic.within_tolerance" + cls, os.str());
+        // half-infinite intervals: an error in (tol, 2 tol] is the signature of the tolerance being applied
+        // to half of the integral (known finding); anything larger is another defect and keeps its own key
+        const R err = std::fabs(R(*o) - exact);
+        const bool doubled = shape <= 1 && err > atol + rounding && err <= 2 * (atol + rounding);
+        c.close(*o, exact, atol + rounding,
+                "C12.gk.analytic.within_tolerance" + cls + (doubled ? ".doubled_tolerance" : ""), os.str());
       }
     } else {
       c.tag("adaptive.no_value");
